@@ -263,6 +263,126 @@ def build():
                     lambda ex, env: PObj("Bytes", {})},
         loops={1: LoopSpec([seg_inv], index="_i", havoc=[havoc_len])}))
 
+
+    # ------------------------------------------------------------------ IWAArchiveSegment.from_buffer: which bytes and which class each message is parsed with
+    from pyvc.sym import Custom as _Custom, ClassRef as _ClassRef, SBool as _SBool
+    A_ = z3.ArraySort
+    I_ = lambda v: v if isinstance(v, z3.ExprRef) else as_int_term(v)
+    TYc, LNc, BIc = z3.Const("mi_type", A_(Int, Int)), z3.Const("mi_length", A_(Int, Int)), z3.Const("mi_base_index", A_(Int, Int))
+    PSm = ctx.spec("payload_offset", [A_(Int, Int), Int, Int],
+                   lambda f, ln, k: z3.Implies(k >= 0, f(ln, k) == z3.If(k == 0, z3.IntVal(0), f(ln, k - 1) + z3.Select(ln, k - 1))),
+                   None, "offset of message k in the segment payload: the sum of the lengths of the messages before it")
+    psm = PSm.f
+    KNOWN_T = z3.Function("type_id_known", Int, z3.BoolSort())
+    PATCH = z3.Function("patch_of_base_type", Int, Int)  # class token of ProtobufPatch for a base type
+
+    class MsgInfos(_Custom):
+        def __init__(self, n):
+            self.n = n
+
+        def length(self, ex):
+            return self.n
+
+        def getitem(self, ex, idx, line):
+            i = I_(idx)
+            ex.safety(z3.And(i >= -self.n, i < self.n), "IndexError", "message-info-index", line)
+            return PObj("MessageInfoV", {"type": wrap(z3.Select(TYc, i)), "length": wrap(z3.Select(LNc, i)), "base_message_index": wrap(z3.Select(BIc, i)), "g_i": i})
+
+    class IdMap(_Custom):
+        def getitem(self, ex, idx, line):
+            t = I_(idx)
+            ex.safety(KNOWN_T(t), "KeyError", "type-id-known", line)
+            return PObj("MsgClass", {"tok": t})
+
+    class PayloadTok(_Custom):
+        """the segment payload: only slices of it are taken"""
+        def getslice(self, ex, lo, hi, line):
+            return PObj("PayloadSlice", {"lo": wrap(I_(lo)) if lo is not None else 0, "hi": (wrap(I_(hi)) if hi is not None else None)})
+
+    class Parsed(_Custom):
+        def __init__(self):
+            self.ln = z3.IntVal(0)
+            self.CLS, self.LO, self.HI = (z3.K(Int, z3.IntVal(0)) for _ in range(3))
+
+        def truth(self, ex):
+            return self.ln > 0
+
+        def length(self, ex):
+            return self.ln
+
+        def method(self, ex, name, args, kwargs, line):
+            if name != "append":
+                raise Unsupported(f"payloads.{name}")
+            o = args[0].fields
+            self.CLS = z3.Store(self.CLS, self.ln, I_(o["cls"]))
+            self.LO = z3.Store(self.LO, self.ln, I_(o["lo"]))
+            self.HI = z3.Store(self.HI, self.ln, I_(o["hi"]))
+            self.ln = self.ln + 1
+
+    def parse_with(ex, cls_tok, sl, line):
+        if not (isinstance(sl, PObj) and sl.cls == "PayloadSlice" and sl.fields["hi"] is not None):
+            raise Unsupported("message parsed from something that is not a bounded payload slice")
+        if not ex.decide(z3.Bool(fresh_name("parse_ok")), f"parse@L{line}"):
+            from pyvc.sym import PyRaise, VExc
+            raise PyRaise(VExc("AnyException", (), f"L{line}:FromString"))
+        return PObj("ParsedMessage", {"cls": wrap(cls_tok), "lo": sl.fields["lo"], "hi": sl.fields["hi"]})
+    ctx.method_models = getattr(ctx, "method_models", {})
+    ctx.method_models[("MsgClass", "FromString")] = lambda ex, o, a, k, l: parse_with(ex, o.fields["tok"], a[0], l)
+    ctx.method_models[("PatchClass", "__call__")] = lambda ex, o, a, k, l: parse_with(ex, PATCH(o.fields["base"]), a[0], l)
+
+    def fb_entry(ex):
+        n = z3.Int(fresh_name("n_messages"))
+        k = z3.Int(fresh_name("lk"))
+        ex.assume(z3.And(n >= 0, z3.ForAll([k], z3.Select(LNc, k) >= 0)))
+        info = PObj("ArchiveInfoV", {"message_infos": MsgInfos(n), "should_merge": ex.fresh("bool", "should_merge")})
+        return {"cls": _ClassRef("IWAArchiveSegment"), "buf": PObj("Buf", {}), "filename": None, "g_info": info, "g_n": SInt(n), "g_payload": PayloadTok()}
+    ctx.constructors["IWAArchiveSegment"] = lambda ex, args, kwargs, line: PObj("SegmentV", {"header": args[0], "objects": args[1]})
+    ctx.extra_globals["ID_NAME_MAP"] = IdMap()
+
+    def want_cls(env, k):
+        merge = z3.And(z3.Select(TYc, k) == 0, lift(env["g_info"].fields["should_merge"]), k > 0)
+        return z3.If(merge, PATCH(z3.Select(TYc, z3.Select(BIc, k))), z3.Select(TYc, k))
+
+    def fb_facts(env, p, upto):
+        k = z3.Int(fresh_name("fk"))
+        return z3.ForAll([k], z3.Implies(z3.And(0 <= k, k < upto), z3.And(
+            z3.Select(p.LO, k) == psm(LNc, k), z3.Select(p.HI, k) == psm(LNc, k) + z3.Select(LNc, k), z3.Select(p.CLS, k) == want_cls(env, k))))
+
+    def fb_inv(ex, env):
+        p = env["payloads"]
+        i = I_(env["_i"])
+        return z3.And(i >= 0, i <= env["g_n"].t, p.ln == i, I_(env["n"]) == psm(LNc, i), fb_facts(env, p, i))
+
+    def fb_havoc(ex, env):
+        p = Parsed()
+        p.ln = z3.Int(fresh_name("n_parsed"))
+        p.CLS, p.LO, p.HI = (z3.Const(fresh_name(x), A_(Int, Int)) for x in ("p_cls", "p_lo", "p_hi"))
+        env["payloads"] = p
+
+    def fb_post(ex, env):
+        seg, rest = env["result"]
+        p = seg.fields["objects"]
+        n = env["g_n"].t
+        return z3.And(p.ln == n, fb_facts(env, p, n), z3.BoolVal(seg.fields["header"] is env["g_info"]), I_(rest.fields["lo"]) == psm(LNc, n),
+                      z3.BoolVal(rest.fields["hi"] is None))
+    fb_post.__name__ = ("one object per message_info, in order; object k is parsed from payload[offset_k : offset_k + length_k] with offset_k the sum of the "
+                        "earlier lengths; its class is the one registered for its type, or - for a merge message (type 0 in a should_merge segment, "
+                        "not the first) - the patch parser over the class of message_infos[base_message_index]; the remainder starts after the last message")
+
+    def fb_hints(ex, env):
+        i = I_(env["_i"])
+        return [PSm.unfold(psm, LNc, i + 1), PSm.unfold(psm, LNc, z3.IntVal(0))]
+    plan.target(Contract(
+        "iwafile:IWAArchiveSegment.from_buffer", entry=fb_entry, ensures=[fb_post],
+        raises={"ValueError": None, "NotImplementedError_": None, "IndexError": None},  # IndexError: a merge message whose base index is outside the header
+        safety="fork", search=lambda plan_, c: {"custom": "search_segments", "native_module": plan_.native_module},
+        opaque={"get_archive_info_and_remainder(buf)": lambda ex, env: (ex.entry_env["g_info"], ex.entry_env["g_payload"]),
+                "repr(archive_info)": "str",
+                "partial(ProtobufPatch.FromString, message_info, ID_NAME_MAP[base_message.type])":
+                    lambda ex, env: PObj("PatchClass", {"base": I_(ex.eval(ast.parse("ID_NAME_MAP[base_message.type]", mode="eval").body, env).fields["tok"])})},
+        local_views={"payloads": lambda ex, env: Parsed()},
+        loops={1: LoopSpec([fb_inv], index="_i", havoc=[fb_havoc], hints=[fb_hints])}))
+
     plan.bounded.append(BoundedStandIn(
         "iwa-corpus", "c05_iwa.py", ["--fixtures", "30"], thorough_args=["--fixtures", "0"],
         bound="every .iwa member of the 30 smallest fixtures and the template (thorough: all fixtures, ~5 270 members): decode, "
